@@ -74,21 +74,40 @@ func runC14(c *Ctx, r *Report) {
 
 	// ---- R2 ----
 	var writes []*ssa.Call
-	innerOf := map[*ssa.Call]*ssa.Call{}
+	siteOf := map[*ssa.Call]ssa.Instruction{} // where, in SaveGlobals, the write happens (itself, or the call of the helper that does it)
+	fnOf := map[*ssa.Call]*ssa.Function{}     // the function that contains the write
+	isWriteCall := func(call *ssa.Call) bool {
+		name := stdName(call)
+		return name == "fmt.Fprintf" || name == "fmt.Fprint" || name == "fmt.Fprintln" || (call.Common().IsInvoke() && call.Common().Method.Name() == "Write") || name == "io.WriteString"
+	}
 	eachInstr(sg, func(in ssa.Instruction) {
 		call, ok := in.(*ssa.Call)
 		if !ok {
 			return
 		}
-		name := stdName(call)
-		if name == "fmt.Fprintf" || name == "fmt.Fprint" || name == "fmt.Fprintln" || (call.Common().IsInvoke() && call.Common().Method.Name() == "Write") || name == "io.WriteString" {
+		if isWriteCall(call) {
 			writes = append(writes, call)
+			siteOf[call], fnOf[call] = call, sg
 			return
 		}
-		// a module helper that is handed the writer and does the one Fprintf
-		if inner := helperFprintf(call); inner != nil {
-			writes = append(writes, call)
-			innerOf[call] = inner
+		// a module helper that is handed the writer: its writes on that parameter are writes of SaveGlobals
+		callee := call.Common().StaticCallee()
+		if callee == nil || !isModuleSSA(callee) || callee.Blocks == nil || call.Common().IsInvoke() {
+			return
+		}
+		for i, a := range call.Common().Args {
+			if i >= len(callee.Params) || a != ssa.Value(sg.Params[1]) {
+				continue
+			}
+			wp := callee.Params[i]
+			eachInstr(callee, func(x ssa.Instruction) {
+				ic, ok := x.(*ssa.Call)
+				if !ok || !isWriteCall(ic) || len(ic.Common().Args) == 0 || ic.Common().Args[0] != ssa.Value(wp) {
+					return
+				}
+				writes = append(writes, ic)
+				siteOf[ic], fnOf[ic] = call, callee
+			})
 		}
 	})
 	if len(writes) < 2 {
@@ -96,12 +115,6 @@ func runC14(c *Ctx, r *Report) {
 	}
 	for i, w := range writes {
 		desc := "write #" + string(rune('1'+i)) + " of SaveGlobals"
-		if inner := innerOf[w]; inner != nil {
-			f, ok := constString(inner.Common().Args[1])
-			good := ok && strings.HasSuffix(f, "\n") && strings.Count(f, "\n") == 1 && !strings.Contains(f, "\r")
-			r.Check(good, "C14.R2", sname, desc+" uses a constant one-line format", c.Pos(w.Pos()), "the format used by the helper does not end in exactly one newline (or contains another): auto-load reads the file one line at a time")
-			continue
-		}
 		if stdName(w) != "fmt.Fprintf" {
 			r.Fail("C14.R2", sname, desc+" uses a constant one-line format", c.Pos(w.Pos()), "a binding is written with something other than fmt.Fprintf and a constant format: the one-binding-per-line shape cannot be established")
 			continue
@@ -233,7 +246,7 @@ func runC14(c *Ctx, r *Report) {
 		okSorted := rng != nil && sortCall != nil
 		if okSorted {
 			for _, w := range writes {
-				if !instrDominates(sortCall, w) {
+				if !instrDominates(sortCall, siteOf[w]) {
 					okSorted = false
 				}
 			}
@@ -270,7 +283,7 @@ func runC14(c *Ctx, r *Report) {
 				}
 				all := true
 				for _, w := range writes {
-					if !instrDominates(hc, w) {
+					if !instrDominates(hc, siteOf[w]) {
 						all = false
 					}
 				}
@@ -279,13 +292,14 @@ func runC14(c *Ctx, r *Report) {
 		}
 		r.Check(okSorted, "C14.R3", sname, "keys are sorted before any binding is written", c.Pos(sg.Pos()), "the bindings are written in Go map iteration order: saving the same state twice gives different files")
 		// the value written is the whole Inspect() result and the write is under !(len(val) > max)
-		inspectVals := map[ssa.Value]bool{}
-		eachInstr(sg, func(in ssa.Instruction) {
-			if call, ok := in.(*ssa.Call); ok && call.Common().IsInvoke() && call.Common().Method.Name() == "Inspect" {
-				inspectVals[call] = true
-			}
-		})
 		for _, w := range writes {
+			wf := fnOf[w]
+			inspectVals := map[ssa.Value]bool{}
+			eachInstr(wf, func(in ssa.Instruction) {
+				if call, ok := in.(*ssa.Call); ok && call.Common().IsInvoke() && call.Common().Method.Name() == "Inspect" {
+					inspectVals[call] = true
+				}
+			})
 			if stdName(w) != "fmt.Fprintf" {
 				continue
 			}
@@ -310,10 +324,10 @@ func runC14(c *Ctx, r *Report) {
 										// length guard on v: the edge on which len(v) > limit holds must not reach this write
 										// within the same iteration
 										headers := map[*ssa.BasicBlock]bool{}
-										for _, h := range loopHeaders(sg) {
+										for _, h := range loopHeaders(wf) {
 											headers[h] = true
 										}
-										for _, ib := range sg.Blocks {
+										for _, ib := range wf.Blocks {
 											ifi, ok := ib.Instrs[len(ib.Instrs)-1].(*ssa.If)
 											if !ok {
 												continue
@@ -372,7 +386,7 @@ func runC14(c *Ctx, r *Report) {
 		isConst := c.Fn("object", "isConstantAndExtraIdentifier")
 		for i, w := range writes {
 			ok := false
-			for _, cc := range controlling(w.Block()) {
+			for _, cc := range controlling(siteOf[w].Block()) {
 				if call, isCall := cc.Cond.(*ssa.Call); isCall && isCallTo(call, isConst) && cc.Edge == 1 {
 					ok = true
 				}
